@@ -979,10 +979,79 @@ def _inline_helpers(fn, globs, counter=None, depth=0, owner=None):
     return fn
 
 
+def _x8_fold_fresh_object(fn):
+    """N8 (x8): inside `__init__`, in one block,
+        v = K.__new__(K); v.a = e; self.f = v          (v a local bound only there and used nowhere else, e without v)
+    becomes
+        self.f = K.__new__(K); self.f.a = e
+    — the spelling the x5 subset has (`x5_nested_store`).  The object is not reachable before `__init__` returns, and an
+    exception raised by `e` leaves `__init__` in both spellings, so storing the empty object first is not observable."""
+    if fn.name != "__init__" or not fn.args.args:
+        return fn
+    me = fn.args.args[0].arg
+    uses = {}
+    for n in ast.walk(fn):
+        if isinstance(n, ast.Name):
+            uses[n.id] = uses.get(n.id, 0) + 1
+    def is_new(v):
+        return isinstance(v, ast.Call) and isinstance(v.func, ast.Attribute) and v.func.attr == "__new__" \
+            and isinstance(v.func.value, ast.Name) and len(v.args) == 1 and not v.keywords \
+            and isinstance(v.args[0], ast.Name) and v.args[0].id == v.func.value.id
+    def fold(stmts):
+        out, i = [], 0
+        while i < len(stmts):
+            a = stmts[i]
+            if i + 2 < len(stmts) and isinstance(a, ast.Assign) and len(a.targets) == 1 and isinstance(a.targets[0], ast.Name) \
+                    and is_new(a.value):
+                v = a.targets[0].id
+                b, c = stmts[i + 1], stmts[i + 2]
+                if v != me and v not in [x.arg for x in fn.args.args + fn.args.kwonlyargs] and uses.get(v) == 3 \
+                        and isinstance(b, ast.Assign) and len(b.targets) == 1 and isinstance(b.targets[0], ast.Attribute) \
+                        and isinstance(b.targets[0].value, ast.Name) and b.targets[0].value.id == v \
+                        and not any(isinstance(x, ast.Name) and x.id == v for x in ast.walk(b.value)) \
+                        and isinstance(c, ast.Assign) and len(c.targets) == 1 and isinstance(c.targets[0], ast.Attribute) \
+                        and isinstance(c.targets[0].value, ast.Name) and c.targets[0].value.id == me \
+                        and isinstance(c.value, ast.Name) and c.value.id == v:
+                    f = c.targets[0].attr
+                    s1 = ast.copy_location(ast.Assign(
+                        targets=[ast.Attribute(value=ast.Name(id=me, ctx=ast.Load()), attr=f, ctx=ast.Store())],
+                        value=a.value, type_comment=None), a)
+                    s2 = ast.copy_location(ast.Assign(
+                        targets=[ast.Attribute(value=ast.Attribute(value=ast.Name(id=me, ctx=ast.Load()), attr=f, ctx=ast.Load()),
+                                               attr=b.targets[0].attr, ctx=ast.Store())],
+                        value=b.value, type_comment=None), b)
+                    out += [s1, s2]
+                    i += 3
+                    continue
+            for fld in ("body", "orelse", "finalbody"):
+                if isinstance(getattr(a, fld, None), list) and not isinstance(a, (ast.FunctionDef, ast.ClassDef, ast.Lambda)):
+                    setattr(a, fld, fold(getattr(a, fld)))
+            for h in getattr(a, "handlers", []) or []:
+                h.body = fold(h.body)
+            out.append(a)
+            i += 1
+        return out
+    fn.body = fold(fn.body)
+    # N9 (x8): a bare `self.f: T` (annotation without a value) executes nothing inside a function: dropped
+    class _DropBare(ast.NodeTransformer):
+        def visit_AnnAssign(self, node):
+            if node.value is None and isinstance(node.target, ast.Attribute) and isinstance(node.target.value, ast.Name) \
+                    and node.target.value.id == me:
+                return ast.copy_location(ast.Pass(), node)
+            return node
+        def visit_FunctionDef(self, node):
+            return node if node is not fn else self.generic_visit(node)
+        def visit_Lambda(self, node):
+            return node
+    fn = _DropBare().visit(fn)
+    return fn
+
+
 def x4_normalise(fn, globs=None, owner=None):
     if globs is not None:
         fn = _inline_helpers(fn, globs, owner=owner)
     fn = _X4Normaliser(fn).visit(fn)
+    fn = _x8_fold_fresh_object(fn)                       # x8: N8
     ast.fix_missing_locations(fn)
     return fn
 
